@@ -176,6 +176,67 @@ theorem gmSorted_gmModify {α : Type} {m : GroupMap α} (hs : GmSorted m) (k : L
   rw [gmKeys_gmModify]
   exact insertKey_sorted hs
 
+/-- a property of the inner maps that `f` establishes and keeps holds for every group after `gmModify` -/
+theorem gm_all_gmModify {α : Type} {P : List (Nat × α) → Prop} {m : GroupMap α} (hm : ∀ g ∈ m, P g.2)
+    (k : List Value) {f : List (Nat × α) → List (Nat × α)} (h0 : P (f [])) (hf : ∀ l, P l → P (f l)) :
+    ∀ g ∈ gmModify m k f, P g.2 := by
+  induction m with
+  | nil => intro g hg; simp [gmModify] at hg; subst hg; exact h0
+  | cons x rest ih =>
+    intro g hg
+    simp only [gmModify] at hg
+    cases hc : cmpList k x.1 <;> rw [hc] at hg <;> simp only [List.mem_cons] at hg
+    · rcases hg with hg | hg | hg
+      · subst hg; exact h0
+      · subst hg; exact hm _ (by simp)
+      · exact hm g (by simp [hg])
+    · rcases hg with hg | hg
+      · subst hg; exact hf _ (hm x (by simp))
+      · exact hm g (by simp [hg])
+    · rcases hg with hg | hg
+      · subst hg; exact hm _ (by simp)
+      · exact ih (fun g hg => hm g (by simp [hg])) g hg
+
+theorem gm_key_gmModify {α : Type} (m : GroupMap α) (k : List Value) (f : List (Nat × α) → List (Nat × α)) :
+    ∀ g ∈ gmModify m k f, g.1 = k ∨ g.1 ∈ m.map (·.1) := by
+  intro g hg
+  have : g.1 ∈ (gmModify m k f).map (·.1) := List.mem_map.mpr ⟨g, hg, rfl⟩
+  rw [gmKeys_gmModify] at this
+  exact insertKey_mem this
+
+theorem alSet_nodup {α : Type} (l : List (Nat × α)) (i : Nat) (v : α) (h : (l.map (·.1)).Nodup) :
+    ((alSet l i v).map (·.1)).Nodup := by
+  unfold alSet
+  by_cases hany : l.any (·.1 == i) = true
+  · simp only [hany, if_true]
+    have : (l.map (fun p => if p.1 == i then (i, v) else p)).map (·.1) = l.map (·.1) := by
+      rw [List.map_map]
+      apply List.map_congr_left
+      intro p _
+      by_cases hp : p.1 = i
+      · simp [hp]
+      · simp [hp]
+    rw [this]; exact h
+  · simp only [hany, Bool.false_eq_true, if_false, List.map_append, List.map_cons, List.map_nil]
+    rw [List.nodup_append]
+    refine ⟨h, by simp, ?_⟩
+    intro a ha b hb
+    simp only [List.mem_singleton] at hb
+    subst hb
+    intro hab
+    subst hab
+    obtain ⟨p, hp, hpe⟩ := List.mem_map.mp ha
+    exact hany (List.any_eq_true.mpr ⟨p, hp, by simp [hpe]⟩)
+
+theorem alSet_ne_nil {α : Type} (l : List (Nat × α)) (i : Nat) (v : α) : alSet l i v ≠ [] := by
+  unfold alSet
+  by_cases hany : l.any (·.1 == i) = true
+  · simp only [hany, if_true]
+    cases l with
+    | nil => simp at hany
+    | cons p ps => simp
+  · simp [hany]
+
 /-- in a sorted map, a key below the first key is absent -/
 theorem gmGet_none_of_lt {α : Type} {m : GroupMap α} {k : List Value}
     (h : ∀ g ∈ m, cmpList k g.1 = .lt) : gmGet m k = none := by
